@@ -320,6 +320,23 @@ def inject(text, anns, ops=None):
             appended.append('\n%s { return %s; }\n' % (proto, cond))
             report['ops'].append('condition of %s (%s...) copied into generated function %s; the statements it guards are dropped'
                                  % (fname, start_re[:40], proto))
+        elif op[0] == 'slice_rhs':
+            # ('slice_rhs', function, regex with one group = the right-hand side, [prototypes]): every statement of the function
+            # matching the regex contributes its right-hand side, copied verbatim, as `proto_k { return (RHS); }`; the number of
+            # matches must equal the number of prototypes.  Everything else of the function is dropped.
+            _, fname, rx, protos = op
+            defs = find_function_defs(toks, fname)
+            if len(defs) != 1:
+                raise StageError('slice_rhs %s: %d definitions' % (fname, len(defs)))
+            b0, b1 = toks[defs[0][1]][2], toks[defs[0][2]][2]
+            ms = list(re.finditer(rx, text[b0:b1]))
+            if len(ms) != len(protos):
+                raise StageError('slice_rhs %s: %d statements match, %d expected' % (fname, len(ms), len(protos)))
+            for mm, proto in zip(ms, protos):
+                rhs = ' '.join(l for l in mm.group(1).splitlines() if not l.startswith('#'))
+                appended.append('\n%s { return (%s); }\n' % (proto, rhs))
+            report['ops'].append('%d right-hand sides of %s matching /%s/ copied into generated functions; the rest of %s is dropped'
+                                 % (len(ms), fname, rx[:40], fname))
         elif op[0] == 'slice_case':
             # ('slice_case', function, case label, proto, prologue, epilogue): the statements of one arm of a switch in a
             # large function are copied verbatim into a generated function  proto { prologue <arm> epilogue }.
